@@ -107,8 +107,14 @@ def ev(env, e):
                     return table[type(op)]
             if arg.endswith('out_object'):
                 # non-emptiness of the result sequence
-                if isinstance(op, ast.Gt) and r.value == 0:
+                # (process_request always stores a one-or-more element
+                # sequence before the callback runs)
+                if (isinstance(op, (ast.Gt, ast.NotEq)) and r.value == 0) or (
+                        isinstance(op, ast.GtE) and r.value == 1):
                     return True
+                if (isinstance(op, (ast.Eq, ast.LtE)) and r.value == 0) or (
+                        isinstance(op, ast.Lt) and r.value == 1):
+                    return False
                 raise Unknown('len(out_object)')
     if isinstance(e, ast.Call):
         nm = call_name(e)
